@@ -104,7 +104,7 @@ def _foreign_worker(args):
     inst = dt.astimezone(pytz.utc).replace(tzinfo=None)
     table = []
     for hay, olson in zones:
-        o = zoneinfo._utcoffset_at(pytz.timezone(olson), dt)
+        o = dt.astimezone(pytz.utc).astimezone(pytz.timezone(olson)).utcoffset()     # pytz, not hszinc's helper: the oracle must not be the code under test
         table.append((olson, int(o.total_seconds())))
     out = {'off': int(off.total_seconds()), 'inst': inst, 'zattr': zattr, 'table': table}
     try:
